@@ -145,7 +145,12 @@ def tok_equal(x, y):
     if rx in (round_to(ry, 53), round_to(ry, 24), round_to(round_to(ry, 53), 24)):
         EXACT_RATIONAL_MATCHES += 1
         return True
-    if os.environ.get('VERIF_LOOSE_RATIONALS') and abs(rx - ry) <= abs(ry) * Fraction(1, 2 ** 20):
+    # ... unless the exact sums themselves cannot have been formed exactly in float64 (numerator or denominator of
+    # the reduced quotient beyond 2^50: products of 31-bit values with 31-bit weights): then the library's value
+    # went through several roundings and the old relative tolerance 2^-20 applies (found by the thorough tier,
+    # seed 5: a map used as its own weight map with values next to the int32 sentinel)
+    if (max(abs(ry.numerator), ry.denominator) >= 2 ** 50 or os.environ.get('VERIF_LOOSE_RATIONALS')) \
+            and abs(rx - ry) <= abs(ry) * Fraction(1, 2 ** 20):
         LOOSE_RATIONAL_MATCHES += 1
         return True
     return False
